@@ -15,6 +15,8 @@
 (* Shape = "window"   : the code as pinned: with execution tracing on, End      *)
 (*                      unlocks mu around executionTracerTaskEnd and relocks    *)
 (*                      WITHOUT re-checking isRecording (:486-490).             *)
+(* Shape = "recheck"  : the same window, but isRecording is checked again after *)
+(*                      the relock and a call that lost the race returns.       *)
 (* Shape = "markfirst": endTime is set in the critical section of the check,    *)
 (*                      the task is ended after the unlock (the proposed fix).  *)
 (* Monitor variables (mon) observe API-level facts only (calls, returns, what   *)
@@ -26,7 +28,7 @@ CONSTANTS Enders, Mutators, Children, Readers,
           Processors,   \* sequence of processor names registered before the span started
           Shared,       \* subset of Mutators whose parts live in storage the snapshot aliases (attributes)
           ExecTracer,   \* BOOLEAN: span started while runtime/trace was on (executionTracerTaskEnd # nil)
-          Shape,        \* "window" | "markfirst"
+          Shape,        \* "window" | "recheck" | "markfirst"
           AllowKnown    \* TRUE: admit the known deviation D1 (double End through the unlock window)
 
 VARIABLES mu,        \* span lock holder: "none" | process
@@ -78,10 +80,10 @@ ELock(e) == /\ pc[e] = "lock" /\ Lock(e) /\ Go(e, "check")
 ECheck(e) == /\ pc[e] = "check"
              /\ IF endTime # "none"
                   THEN Go(e, "unlockign") /\ UNCHANGED <<plist, win, winOverlap>>
-                  ELSE /\ Go(e, IF ExecTracer /\ Shape = "window" THEN "unlockT" ELSE "mark")
+                  ELSE /\ Go(e, IF ExecTracer /\ Shape \in {"window", "recheck"} THEN "unlockT" ELSE "mark")
                        /\ win' = win \cup {e} /\ winOverlap' = (winOverlap \/ win # {})
              /\ UNCHANGED <<plist, mu, endTime, parts, childCount, esnap, eprocs, rval, mon>>
-EUnlockIgnored(e) == /\ pc[e] = "unlockign" /\ Unlock(e) /\ Go(e, "ret")
+EUnlockIgnored(e) == /\ pc[e] \in {"unlockign", "unlockign2"} /\ Unlock(e) /\ Go(e, "ret")
                      /\ UNCHANGED <<plist, endTime, parts, childCount, esnap, eprocs, rval, win, winOverlap, mon>>
 EUnlockForTask(e) == /\ pc[e] = "unlockT" /\ Unlock(e) /\ Go(e, "task")
                      /\ UNCHANGED <<plist, endTime, parts, childCount, esnap, eprocs, rval, win, winOverlap, mon>>
@@ -89,8 +91,13 @@ ETaskEnd(e) == /\ pc[e] \in {"task", "task2"}
                /\ Go(e, IF pc[e] = "task" THEN "relock" ELSE "procs")
                /\ mon' = [mon EXCEPT !.taskEnds = @ + 1]
                /\ UNCHANGED <<plist, mu, endTime, parts, childCount, esnap, eprocs, rval, win, winOverlap>>
-ERelock(e) == /\ pc[e] = "relock" /\ Lock(e) /\ Go(e, "mark")     \* no re-check of isRecording here
+ERelock(e) == /\ pc[e] = "relock" /\ Lock(e)
+              /\ Go(e, IF Shape = "recheck" THEN "recheck" ELSE "mark")     \* "window": no re-check of isRecording
               /\ UNCHANGED <<plist, endTime, parts, childCount, esnap, eprocs, rval, win, winOverlap, mon>>
+ERecheck(e) == /\ pc[e] = "recheck"
+               /\ IF endTime # "none" THEN (Go(e, "unlockign2") /\ win' = win \ {e})     \* lost the race: End does nothing
+                                      ELSE (Go(e, "mark") /\ UNCHANGED win)
+               /\ UNCHANGED <<plist, mu, endTime, parts, childCount, esnap, eprocs, rval, winOverlap, mon>>
 EMark(e) == /\ pc[e] = "mark" /\ endTime' = e /\ Go(e, "unlock") /\ win' = win \ {e}
             /\ UNCHANGED <<plist, mu, parts, childCount, esnap, eprocs, rval, winOverlap, mon>>
 EUnlock(e) == /\ pc[e] = "unlock" /\ Unlock(e)
@@ -190,7 +197,7 @@ GRet(g) == /\ pc[g] = "ret" /\ Go(g, "done")
            /\ UNCHANGED <<mu, endTime, parts, childCount, esnap, eprocs, rval, plist, win, winOverlap>>
 
 EnderNext(e) == \/ ECall(e) \/ ELock(e) \/ ECheck(e) \/ EUnlockIgnored(e) \/ EUnlockForTask(e) \/ ETaskEnd(e)
-                \/ ERelock(e) \/ EMark(e) \/ EUnlock(e) \/ EGetProcs(e) \/ ESnapLock(e) \/ ESnapCopy(e)
+                \/ ERelock(e) \/ ERecheck(e) \/ EMark(e) \/ EUnlock(e) \/ EGetProcs(e) \/ ESnapLock(e) \/ ESnapCopy(e)
                 \/ ESnapUnlock(e) \/ EOnEnd(e) \/ ERet(e)
 MutNext(m) == MCall(m) \/ MLock(m) \/ MCheck(m) \/ MApply(m) \/ MUnlock(m) \/ MRet(m)
 ChildNext(c) == CCall(c) \/ CLock(c) \/ CIncr(c) \/ CUnlock(c) \/ CRet(c)
@@ -227,7 +234,7 @@ TaskEndedOnce == (~winOverlap) => mon.taskEnds <= 1
 (* what a processor was handed never changes afterwards *)
 SnapshotStable == \A d \in mon.views : View(esnap[d.e]) = d.view
 MutexOK == /\ mu \in Procs \cup {"none"}
-           /\ \A x \in Procs : (mu = x) <=> (pc[x] \in {"check", "unlockign", "unlockT", "mark", "unlock", "snapcopy",
+           /\ \A x \in Procs : (mu = x) <=> (pc[x] \in {"check", "unlockign", "unlockign2", "recheck", "unlockT", "mark", "unlock", "snapcopy",
                                                          "snapunlock", "apply1", "apply2", "incr", "read"})
 (* once some End has returned the span is ended for good *)
 EndedForGood == mon.endRet => endTime # "none"
